@@ -40,6 +40,7 @@ type c02Case struct {
 	Msgs    []c02Beh
 	Gate    string // "" or hook point at which message 1 is parked until the others are done
 	Overlap bool   // the Publish call for message 1 is held inside the publisher until the handlers of the other messages have returned
+	NoTopic bool   // the handler has a publisher and the publish topic "" (a topic like any other: the publisher decides what it means)
 	CloseTO bool   // Router.Close runs into its (short) CloseTimeout while the only invocation is still running; it then ends normally: the message is settled by that outcome
 	LateMsg bool   // the handler is stopped (Handler.Stop) while the source keeps its channel open; a message sent then is handled like any other or given up unsettled, never settled without the chain
 }
@@ -116,6 +117,12 @@ func runC02(c *Ctx) error {
 		cases = append(cases, c02Case{HasPub: true, Prefix: "none", Overlap: true, Msgs: []c02Beh{{Self: "none", End: "ok", NOuts: 1, Pub: bad}, ok1, ok1}})
 		cases = append(cases, c02Case{HasPub: true, Prefix: "pass", Overlap: true, Msgs: []c02Beh{{Self: "none", End: "ok", NOuts: 2, Pub: bad}, ok1, {Self: "none", End: "ok", NOuts: 2, Pub: "accept"}}}) // (the trace spec knows m1..m3)
 	}
+	// (1f) a publisher with the empty publish topic
+	for _, n := range []int{0, 1, 2} {
+		for _, p := range []string{"accept", "error"} {
+			cases = append(cases, c02Case{HasPub: true, Prefix: "none", NoTopic: true, Msgs: []c02Beh{{Self: "none", End: "ok", NOuts: n, Pub: p}}})
+		}
+	}
 	// (1e) Close times out while the invocation runs; the invocation's outcome still decides the settlement
 	for _, hp := range []bool{true, false} {
 		for _, end := range []string{"ok", "err"} {
@@ -182,6 +189,10 @@ func runC02(c *Ctx) error {
 }
 
 func c02Run(r *tr.Run, cs c02Case, rng *rand.Rand) (gateReached bool) {
+	ptopic := "out"
+	if cs.NoTopic {
+		ptopic = ""
+	}
 	closeTimeout := 5 * time.Second
 	if cs.CloseTO {
 		closeTimeout = 60 * time.Millisecond
@@ -364,7 +375,7 @@ func c02Run(r *tr.Run, cs c02Case, rng *rand.Rand) (gateReached bool) {
 		}
 		outMu.Lock()
 		want := returned[m]
-		intact := len(want) == len(msgs) && topic == "out"
+		intact := len(want) == len(msgs) && topic == ptopic
 		for i := range msgs {
 			if !intact {
 				break
@@ -400,7 +411,7 @@ func c02Run(r *tr.Run, cs c02Case, rng *rand.Rand) (gateReached bool) {
 	}
 	hname := prefix + "h"
 	if cs.HasPub {
-		handle = router.AddHandler(hname, "in", sub, "out", pub, handler)
+		handle = router.AddHandler(hname, "in", sub, ptopic, pub, handler)
 	} else {
 		handle = router.AddNoPublisherHandler(hname, "in", sub, func(msg *message.Message) error {
 			_, err := handler(msg)
